@@ -44,6 +44,11 @@ def c05(proj, rep, tier):
     rep.floor('DOM1 effective admissible lower bounds (symmetric-extension entry points)', n, 4)
     n = round3b.rs1(proj, rep, ['numqi.entangle'] if tier == 'quick' else None)
     rep.floor('RS1 matricisations whose axes come from a loop variable', n, 1)
+    n = kdefects.fz1_so1_id1_ev1(proj, rep, ENTANGLE if tier == 'quick' else None)
+    rep.floor('EV1 / FZ1 / SO1 / ID1 lint sweep: functions scanned (entangle + utils)', n, 60)
+    round3b.dt10(proj, rep, ENTANGLE if tier == 'quick' else None)
+    n = round3b.p2(proj, rep)
+    rep.floor('P2 partial transposes of the irrep blocks', n, 2)
 
 
 def c06(proj, rep, tier):
@@ -107,6 +112,8 @@ def c13(proj, rep, tier):
     rep.floor('ZS1 closed-form measure functions scanned for tolerance-gated zeros', n, 6)
     n = round3b.v4(proj, rep, ['numqi.entangle.eof', 'numqi.entangle.measure'] if tier == 'quick' else None)
     rep.floor('V4 convex-roof forward methods', n, 4)
+    n = kdefects.fz1_so1_id1_ev1(proj, rep, M13)
+    rep.floor('EV1 / FZ1 / SO1 / ID1 lint sweep: functions scanned (eof / measure / _misc)', n, 30)
     rep.assume('ranges, local-unitary invariance, monotone relations between the measures, "non-zero iff NPT" and loss >= closed form '
                'numerically are value-level: not decided. The GME model builds its contraction lists from len(dim_list) (not literal): '
                'only clauses (a),(b) are decided for it.')
@@ -124,6 +131,8 @@ def c07(proj, rep, tier):
     rep.floor('H8 phase-convention conversions in clifford_array_to_F2', n, 2)
     n = clifford.h9(proj, rep)
     rep.floor('H9 formulations of the ordering-phase term of clifford_multiply', n, 1)
+    n = round3b.h10(proj, rep)
+    rep.floor('H10 arms of the CliffordCircuit export', n, 2)
     nopen, nfun = round3b.ax1_sm1_sinc1_vm1(proj, rep, ['numqi.sim'] if tier == 'quick' else None)
     rep.floor('VM1 / SINC1 / SM1 / AX1 sweep: functions scanned (simulator)', nfun, 60)
     n, nrec = clifford.h2(proj, rep)
@@ -258,6 +267,8 @@ def c08(proj, rep, tier):
     n, n6 = round3b.pr1_e6(proj, rep, ['numqi.gate._pauli'] if tier == 'quick' else None)
     rep.floor('PR1 integer bit-weight constructions (Pauli index conversions)', n, 1)
     rep.floor('E6 functions converting unicode Pauli-string batches', n6, 2)
+    n = round3b.par1_st3(proj, rep, ['numqi.gate._pauli', 'numqi.random._spf2'] if tier == 'quick' else None)
+    rep.floor('PAR1 / ST3 sweep: functions scanned (Pauli modules)', n, 30)
     n = round3b.e5(proj, rep)
     rep.floor('E5 scalar index -> F2 phase-bit obligations', n, 2)
     n = kdefects.st2(proj, rep, ['numqi.gate._pauli'] if tier == 'quick' else None)
@@ -416,6 +427,9 @@ def c04(proj, rep, tier):
     rep.floor('A11 backward primitives whose gradient structure is value-independent', n, 2)
     n = round3b.al3(proj, rep, None)
     rep.floor('AL3 memo keys compared with an argument', n, 3)
+    n = round3b.a12(proj, rep)
+    rep.floor('A12 backward methods of the autograd Functions', n, 4)
+    round3b.sd1(proj, rep, ['numqi._torch_op', 'numqi.sim', 'numqi.qec'] if tier == 'quick' else None)
     rep.assume('that the accumulated numbers equal the derivative (Sylvester backward of sqrtm, Pade logm, the op_grad einsum) is '
                'value-level: not decided')
 
@@ -619,6 +633,8 @@ def c09(proj, rep, tier):
     rep.floor('DT5 float-default constructors in the GF(2) modules', n, 5)
     n = round3b.mr1(proj, rep, ['numqi.group.spf2', 'numqi.random._spf2'] if tier == 'quick' else None)
     rep.floor('MR1 single-loop comprehensions scanned for same-number residues', n, 5)
+    n = round3b.bi2(proj, rep)
+    rep.floor('BI2 functions of numqi.group.spf2 scanned for fixed-width conversions', n, 8)
     n = seed.s5(proj, rep, ['numqi.random._spf2'])
     n = seed.s7(proj, rep, ['numqi.random._spf2'])
     rep.floor('S7 generator constructions in random._spf2', n, 3)
@@ -678,6 +694,8 @@ def with_mc3(pid, f):
             rep.floor('MC3 memoised functions of the package (reviewed set)', n, 20)
         # PU1 over the modules of the property (package-wide in the thorough tier); the properties that already run it keep their own floors
         scope = [q for q in sorted(proj.modules) if any(q == x or q.startswith(x + '.') for x in MC3_SCOPE[pid])] if tier == 'quick' else sorted(proj.modules)
+        if pid != 'C05':
+            kdefects.mc1(proj, rep, scope)
         if pid not in ('C03', 'C11'):
             n = ownership.pu1(proj, rep, scope)
             if tier != 'quick':
